@@ -121,3 +121,9 @@ pub open spec fn sole_special_queued(tr: Seq<Event>, n0: int, t: PathKey) -> boo
     exists|k: int| n0 <= k < tr.len() && (#[trigger] tr[k]) is Queue && tr[k]->Queue_0 is Special && tr[k]->Queue_0->Special_1 == t
         && (forall|j: int| n0 <= j < tr.len() && j != k ==> is_update(#[trigger] tr[j]))
 }
+/// the destination path of a queued operation
+pub open spec fn op_target(o: Op) -> PathKey { match o { Op::Copy(_, t) => t, Op::Link(_, t) => t, Op::Special(_, t) => t } }
+/// C08: nothing queued since trace position `n0` goes onto an entry that resolved in the namespace `ps`
+pub open spec fn queued_onto_new(tr: Seq<Event>, n0: int, ps: Map<PathKey, Node>) -> bool {
+    forall|k: int| n0 <= k < tr.len() && (#[trigger] tr[k]) is Queue ==> !exists_m(ps, op_target(tr[k]->Queue_0))
+}
